@@ -448,7 +448,9 @@ class C17(CheckBase):
         'real': ['geodepy.ntv2reader (read_ntv2_file, interpolate_ntv2, SubGrid.ntv2_bilinear / ntv2_bicubic)',
                  'geodepy.transform.ntv2_2d', 'struct', 'numpy'],
         'simulated': ['the disk under ntv2reader: SimFS bound over geodepy.ntv2reader.open (byte-exact I/O history)',
-                      'storage faults: corruption of node records, EIO on the n-th read, torn (truncated) file'],
+                      'storage faults: corruption of node records, read error (EIO / EINTR / ETIMEDOUT / EAGAIN) on the n-th read, torn (truncated) file',
+                      'caller threads of the concurrent query batches (baton threads, seeded scheduler, pre-emption at every line of '
+                      'ntv2reader.py / transform.py)'],
         'stub': ['the grid *writer* is a harness component (checks/ntv2_writer.py) built from the NTv2 layout'],
     }
     assumptions = [
@@ -457,7 +459,9 @@ class C17(CheckBase):
         'tolerance = 1e-6 unit + 1e-6 * field change across the cell (corner range; for bicubic the larger of corner range and the gradient bound over the cell) + 64 ulp of arithmetic slack',
         'bicubic may depend on nodes within two cells of the enclosing cell (rows row-2..row+3, cols col-2..col+3, clipped); bilinear on the 4 enclosing nodes only',
     ]
-    rule = ('run = generated grid file (1..4 sub-grids, random analytic fields) on the simulated disk + 5..40 queries + storage fault plan; '
+    rule = ('run = generated grid file (1..4 sub-grids, random analytic fields) on the simulated disk + 5..40 queries (some as boundary pairs '
+            'either side of an extent line, some as batches of 2-4 concurrent callers of one grid object) + storage fault plan, plus a race '
+            'sweep (first query of a fresh grid object stopped at each 1/24, thorough 1/128, of its length while a second caller queries); '
             'non-trivial = at least one query landed inside a sub-grid and was judged; distinct = set of (method, position class, topology class, '
             'field classes, fault kind) tuples of the run, hashed')
     simulated_time_note = 'no clock in this component; progress is counted in storage operations (counters.io_ops)'
